@@ -207,15 +207,14 @@ func (tw *TimingWheel) moveTask(task baseEntry) {
 		return
 	}
 
-	pos, circle := tw.getPositionAndCircle(task.delay)
-	if pos >= timer.pos {
-		timer.item.circle = circle
-		timer.item.diff = pos - timer.pos
-	} else if circle > 0 {
-		circle--
-		timer.item.circle = circle
-		timer.item.diff = tw.numSlots + pos - timer.pos
+	// the slot holding the timer is scanned next after wait ticks, wait in [1, numSlots]
+	steps := int(task.delay / tw.interval)
+	wait := (timer.pos-tw.tickedPos-1+tw.numSlots)%tw.numSlots + 1
+	if steps >= wait {
+		timer.item.circle = (steps - wait) / tw.numSlots
+		timer.item.diff = (steps - wait) % tw.numSlots
 	} else {
+		pos := (tw.tickedPos + steps) % tw.numSlots
 		timer.item.removed = true
 		newItem := &timingEntry{
 			baseEntry: task,
